@@ -278,8 +278,9 @@ def finish(mod, tier, seed, agg, t0, extra_cov=None, assumptions=None):
         'wall_s': round(time.time() - t0, 2), 'violations': nviol,
         'repo': os.environ.get('VERIF_REPO', '/repo'),
     }
-    os.makedirs(os.path.join(VERIF, 'evidence'), exist_ok=True)
-    with open(os.path.join(VERIF, 'evidence', prop + '.json'), 'w') as f:
+    evdir = os.environ.get('VERIF_EVIDENCE_DIR') or os.path.join(VERIF, 'evidence')
+    os.makedirs(evdir, exist_ok=True)
+    with open(os.path.join(evdir, prop + '.json'), 'w') as f:
         json.dump(ev, f, indent=1, sort_keys=True, default=jdefault)
         f.write('\n')
     print('%s %s: evaluations=%d distinct_nontrivial=%d states=%d outcomes=%d violations=%d known=%s wall=%.1fs'
